@@ -343,6 +343,11 @@ func refVersion(s string, n int) (interface{}, error) {
 		if p == "" {
 			return berr("version", "empty component")
 		}
+		if (p[0] == '-' || p[0] == '+') && len(p) > 1 && strings.Trim(p[1:], "0123456789") == "" {
+			// a signed component is not a version in any documented sense and the
+			// statement does not say what it means: nothing is demanded
+			return nil, &OutOfDomain{Why: "version component with a sign"}
+		}
 		for _, c := range p {
 			if c < '0' || c > '9' {
 				return berr("version", "non-numeric component")
